@@ -191,7 +191,7 @@ def run(ctx):
     # retried attempt that may follow redirects although the caller (the manager, always) disabled them is a followed redirect
     rule, fi, outs = pool
     others = [s for s in rule.sites if s.kind == "resend" and not (s.args.get("url") is not None and (("location" in s.args["url"].tags) or any(t.startswith("ref:location") or t == "urljoin" for t in s.args["url"].tags)))]
-    ctx.sites(R3, len({s.node.lineno for s in others}), 2, f"retry resends in {fi.qual}")
+    ctx.sites(R3, len({resend.resend_kind(s) for s in others}), 2, f"kinds of retry resend (after a status / after an error) in {fi.qual}")
     seen = set()
     for s in others:
         rf, af = s.args.get("redirect"), s.args.get("assert_same_host")
